@@ -13,6 +13,8 @@
 //	  <seq>.<n> D <hexkeys>                         O over every type of every listed key (logical dump)
 //	  <seq>.<n> T <hextables>                       table key counter of every listed table
 //	  <seq>.<n> E                                   number of engine keys per key class
+//	  <seq>.<n> X <ts> <type:hexkey,...>            one pass of the local_deletion expiry sweep; the listed keys are
+//	                                                the ones whose expiry is over (what the models clear)
 //	impl.out  : <id> TAB <canonical output>
 //
 // Canonical tokens: _ nil, :N integer, $hex bulk ("-" = empty), *n array header, fHEX float bits,
@@ -59,6 +61,7 @@ func main() {
 	flag.BoolVar(&withCounters, "xcounters", false, "exhaustive mode: end every sequence with the table key counter")
 	big := flag.String("big", "", "big-collection mode: sizes around RangeDeleteNum, e.g. 4999,5000,5001 (-types hszl, -policy local|compact|mix)")
 	live := flag.Bool("live", false, "third leg: send the generated sequences over the redis protocol to a real single-replica server (proposer-side handlers); no expiry commands, local policy, W/R/O lines only")
+	sweep := flag.Bool("sweep", false, "expiry-sweep mode (local_deletion): collections with an expiry, one synchronous pass of the background sweep, a write to the same collection, observation")
 	flag.BoolVar(&bigFirst, "bigfirst", false, "big-collection mode: only the first way of removing a collection per type")
 	flag.Parse()
 
@@ -70,6 +73,8 @@ func main() {
 	var lines []string
 	if *replay != "" {
 		lines = hx.ReadLines(*replay)
+	} else if *sweep {
+		lines = genSweep(*types, *seed)
 	} else if *big != "" {
 		lines = genBig(*big, *types, *policy, *seed)
 	} else if *exh > 0 {
@@ -240,6 +245,20 @@ func (e *executor) run(lines []string) {
 				continue
 			}
 			e.out.Printf("%s\t%s\n", id, e.observe(f[2], hx.UnH(f[3])))
+		case "X":
+			// one synchronous pass of the local_deletion expiry sweep (TTLChecker.check + commit of its own
+			// batched buffer): the number of expired index entries it collected
+			if e.sm == nil {
+				e.out.Printf("%s\tnostore\n", id)
+				continue
+			}
+			n, err := e.sm.Store.VerifLocalExpireTick()
+			if err != nil {
+				e.out.Printf("%s\tswept=-err\n", id)
+				e.dbg.Printf("%s\t%v\n", id, err)
+			} else {
+				e.out.Printf("%s\tswept=:%d\n", id, n)
+			}
 		case "E":
 			// number of engine keys per key class (first byte of the engine key), the whole engine
 			if e.sm == nil {
@@ -1192,6 +1211,75 @@ func (g *gen) readCmd() []string {
 		}
 	}
 	return []string{"get", k}
+}
+
+// ---------------------------------------------------------------- expiry sweep (local_deletion)
+
+// genSweep: per type, a key with an expiry that is over and a key without; one pass of the background
+// sweep; then at once a write to the swept key (and one to the other key), observations, dump, counters.
+func genSweep(types string, seed int64) []string {
+	var lines []string
+	seq := 0
+	build := map[rune][][]string{
+		'h': {{"hmset", "K", "a", "1", "b", "2", "c", "3"}}, 's': {{"sadd", "K", "a", "b", "c"}},
+		'z': {{"zadd", "K", "1", "a", "2", "b", "3", "c"}}, 'l': {{"rpush", "K", "a", "b", "c"}}, 'k': {{"set", "K", "abc"}},
+	}
+	expire := map[rune]string{'h': "hexpire", 's': "sexpire", 'z': "zexpire", 'l': "lexpire", 'k': "expire"}
+	again := map[rune][][]string{
+		'h': {{"hset", "K", "x", "9"}, {"hincrby", "K", "n", "1"}, {"hmset", "K", "a", "7", "y", "8"}},
+		's': {{"sadd", "K", "x"}, {"sadd", "K", "a", "y"}, {"srem", "K", "a"}},
+		'z': {{"zadd", "K", "9", "x"}, {"zincrby", "K", "1", "a"}, {"zrem", "K", "a"}},
+		'l': {{"rpush", "K", "x"}, {"lpush", "K", "x", "y"}, {"lpop", "K"}},
+		'k': {{"append", "K", "x"}, {"incr", "K"}, {"setnx", "K", "x"}},
+	}
+	tname := map[rune]string{'h': "H", 's': "S", 'z': "Z", 'l': "L", 'k': "K"}
+	for _, t := range types {
+		if build[t] == nil {
+			continue
+		}
+		for _, ag := range again[t] {
+			seq++
+			cnt := 0
+			ts := tsBase + seed*1000
+			emit := func(kind string, f ...string) {
+				cnt++
+				lines = append(lines, fmt.Sprintf("s%d.%d\t%s\t%s", seq, cnt, kind, strings.Join(f, "\t")))
+			}
+			w := func(key string, a []string) {
+				ts += 1500000001
+				b := make([]string, len(a))
+				for i, x := range a {
+					if x == "K" {
+						x = key
+					}
+					b[i] = x
+				}
+				emit("W", "0", "-", strconv.FormatInt(ts, 10), hexArgs(b...))
+			}
+			T := tname[t]
+			emit("S", "local", strconv.FormatInt(genNow, 10))
+			for _, b := range build[t] {
+				w("t:dead", b)
+				w("t:kept", b)
+			}
+			if t == 'k' && seq%2 == 0 {
+				w("t:dead", []string{"setex", "K", "1", "abc"})
+			} else {
+				w("t:dead", []string{expire[t], "K", "1"})
+			}
+			emit("E")
+			ts += 5000000000
+			emit("X", strconv.FormatInt(ts, 10), T+":"+hx.H([]byte("t:dead")))
+			w("t:dead", ag)
+			emit("O", T, hx.H([]byte("t:dead")))
+			w("t:kept", ag)
+			emit("O", T, hx.H([]byte("t:kept")))
+			emit("D", hexArgs("t:dead", "t:kept"))
+			emit("T", hexArgs("t"))
+			emit("E")
+		}
+	}
+	return lines
 }
 
 // ---------------------------------------------------------------- big collections
